@@ -63,7 +63,7 @@ def gen_case(rng):
     # entry that falls back to state["graphs_by_agent"], or graphs_by_agent only
     layout = {a: rng.choice(["agents-dict", "agents-dict", "agents-obj", "record-without-graphs+gba", "gba-only"]) for a in agents}
     return {"agents": agents, "graphs": graphs, "specs": specs, "limit": limit if (limit is None or limit >= 1) else 1, "workers": workers, "layout": layout,
-            "turn_id": rng.choice([1, 1, 7, "x"]), "cadence": rng.choice([1, 1, 2]), "overlap": overlap,
+            "turn_id": rng.choice([1, 1, 7, "x", 0, 0]), "cadence": rng.choice([1, 1, 2]), "overlap": overlap,
             # optionally each agent's turn carries its own id (set by the compute phase), ascending in task order and straddling
             # a digit boundary / zero
             "turn_base": rng.choice([None, None, 7, 8, 9, 97, 99, -2, -1])}
